@@ -3,6 +3,7 @@ import VtModel.PMTiles
 import VtModel.TarDir
 import VtModel.MBTiles
 import VtModel.Hilbert
+import VtModel.Getters
 /-!
 Dispatcher of the container-format streams (C16 / C01), see `harness/src/formats_protocol.txt`.
 -/
@@ -10,7 +11,7 @@ namespace VtModel.Formats
 
 def streams : List String :=
   ["VTH", "VBD", "VTI", "VBI", "C16v", "C01v", "PMH", "PMD", "PMF", "PMS", "C16p", "C01p", "HIL",
-   "NAM", "C16t", "C16d", "C01t", "C01d", "C16m", "C01m"]
+   "NAM", "C16t", "C16d", "C01t", "C01d", "C16m", "C01m", "GTR", "GTW"]
 
 def handle (stream : String) (args : List String) : String :=
   match stream with
@@ -19,6 +20,7 @@ def handle (stream : String) (args : List String) : String :=
   | "HIL" => VtModel.Hilbert.handle args
   | "NAM" | "C16t" | "C16d" | "C01t" | "C01d" => VtModel.TarDir.handle stream args
   | "C16m" | "C01m" => VtModel.MBTiles.handle stream args
+  | "GTR" | "GTW" => VtModel.Getters.handle stream args
   | _ => "bad-stream"
 
 end VtModel.Formats
